@@ -3,6 +3,8 @@ package types
 import (
 	"encoding/hex"
 	"fmt"
+
+	sdk "github.com/cosmos/cosmos-sdk/types"
 )
 
 // NewGenesisState constructs a GenesisState
@@ -49,7 +51,7 @@ func ValidateGenesis(data GenesisState) error {
 	}
 
 	for providerAddressStr := range data.WithdrawAddresses {
-		if _, err := hex.DecodeString(providerAddressStr); err != nil {
+		if _, err := sdk.AccAddressFromBech32(providerAddressStr); err != nil {
 			return err
 		}
 	}
